@@ -255,6 +255,7 @@ def monitor_run(bundles):
   depsenv.Monitor.install()
   e, _ = G.new_doc()
   m = depsenv.Monitor(e)
+  outer = depsenv.Monitor.active       # a monitored history may be in progress (diagnose is called from report)
   depsenv.Monitor.active = m
   found = []
   try:
@@ -263,7 +264,7 @@ def monitor_run(bundles):
       for p in m.check(limit=50)[0]:
         found.append((i, p))
   finally:
-    depsenv.Monitor.active = None
+    depsenv.Monitor.active = outer
   return e, found
 
 
@@ -465,6 +466,8 @@ SHAPES = [
   ('lookup-order_by', r'order_by=|sort_by='), ('lookup-multi-key', r'lookup\w+\(\w+=[^,)]+, \w+=\$'),
   ('table.all', r'\w+\.all\b'), ('summary-group', r'\$group'), ('PREVIOUS', r'PREVIOUS\('), ('NEXT', r'NEXT\('),
   ('RANK', r'RANK\('), ('recordset-field (RefList flatten)', r'lookupRecords\([^)]*\)\.\w+|\$group\.\w+'),
+  ('recordset.Ref.field (two hops through a set)',
+   r'lookupRecords\([^)]*\)\.\w+\.\w+|\$group\.\w+\.\w+|list\(\$\w+\.\w+\.\w+\)|in \$\w+\.\w+\.\w+|in \$\w+\.\w+\]'),
 ]
 
 
@@ -567,10 +570,15 @@ def correspond(ctx):
     evals += m.evals
     n += 1
   evals += monitored_script(ctx, c05lib.shape_tour()).evals
+  for fixed in (7, 8, 9):       # three-table documents whose middle hop is a set of records (always run)
+    evals += monitored_script(ctx, c05lib.twohop_history(random.Random(fixed))).evals
+    n += 1
   n += 1
   for i in range(ctx.n(12, 200)):       # the small documents of named shapes (reference chains, blank references, ...)
     hr = random.Random(ctx.rng.randrange(1 << 30))
-    evals += monitored_script(ctx, c05lib.blankref_history(hr) if hr.random() < 0.3 else c05lib.directed_history(hr)).evals
+    pick = hr.random()
+    hist = c05lib.blankref_history(hr) if pick < 0.25 else c05lib.twohop_history(hr) if pick < 0.5 else c05lib.directed_history(hr)
+    evals += monitored_script(ctx, hist).evals
     n += 1
   ctx.extra['monitor_histories'] = n
   ctx.extra['monitor_coverage_by_formula_shape'] = ctx._c05_shapes     # cell checks / read checks per shape; 0 = never exercised
@@ -680,7 +688,8 @@ def search(ctx):
     if time.time() - t0 > budget or len(ctx.violations) > 10:
       break
     hr = random.Random(ctx.rng.randrange(1 << 30))
-    hist = c05lib.blankref_history(hr) if hr.random() < 0.3 else c05lib.directed_history(hr)
+    pick = hr.random()
+    hist = c05lib.blankref_history(hr) if pick < 0.25 else c05lib.twohop_history(hr) if pick < 0.5 else c05lib.directed_history(hr)
     e, _ = G.new_doc()
     done = []
     for b in hist:
